@@ -335,6 +335,13 @@ def cases(tier, seed):
             continue
         for rep in range(3 if thorough else 1):
             out.append({'f': name, 'kind': 'driver', 'n': 6 + rep, 'rs': seed * 10 + rep})
+    if thorough:
+        import glob
+        import os
+        files = sorted(os.path.relpath(f, loader.REPO) for f in glob.glob(os.path.join(loader.REPO, 'test', '*_test.py'))
+                       if not f.endswith('very_long_test.py') and not f.endswith('duecredit_test.py'))
+        for f in files:
+            out.append({'f': 'repo_tests:' + f, 'kind': 'repo_tests', 'files': [f]})
     # piggyback: the other properties' workloads under the same universal monitor
     for P in PIGGY:
         try:
@@ -348,7 +355,51 @@ def cases(tier, seed):
     return out
 
 
+def run_repo_tests(case, bct, REC):
+    """the repository's own tests (real sample matrices) under the universal monitors, in a subprocess"""
+    import json, os, subprocess, sys, tempfile
+    from .. import loader
+    here = os.path.dirname(os.path.dirname(os.path.dirname(os.path.abspath(__file__))))
+    work = os.path.join(here, '.work')
+    os.makedirs(work, exist_ok=True)
+    fd, dump = tempfile.mkstemp(suffix='.json', dir=work)
+    os.close(fd)
+    env = dict(os.environ)
+    env['PYTHONPATH'] = here + os.pathsep + loader.REPO
+    env['BCTMON_DUMP'] = dump
+    env['BCT_REPO'] = loader.REPO
+    try:
+        subprocess.run([sys.executable, '-m', 'pytest', '-q', '-x' if False else '-q', '-p', 'no:cacheprovider', '-p', 'bctmon.pytest_plugin',
+                        '--timeout=900', '--continue-on-collection-errors'] + case['files'], cwd=loader.REPO, env=env,
+                       stdout=subprocess.DEVNULL, stderr=subprocess.DEVNULL, timeout=case.get('timeout', 1500))
+        d = json.load(open(dump))
+    except Exception as e:  # noqa
+        REC.tag(PROP, 'repo_tests_unavailable:%s' % type(e).__name__)
+        return
+    finally:
+        try:
+            os.remove(dump)
+        except OSError:
+            pass
+    n = 0
+    for key, v in d['counts']:
+        c = REC.counts.setdefault(tuple(key), [0, 0])
+        c[0] += v[0]
+        c[1] += v[1]
+        n += v[0]
+    for k, v in d.get('skips', []):
+        kk = (k[0], k[1], k[2], tuple(k[3]))
+        REC.skips[kk] = REC.skips.get(kk, 0) + v
+    REC.witness += d['witness']
+    for fn, c in d['calls'].items():
+        REC.calls[fn] = REC.calls.get(fn, 0) + c
+    REC.tag(PROP, 'repo_tests_monitor_evaluations', n)
+    REC.tag(PROP, 'exec', sum(d['calls'].values()))
+
+
 def run(case, bct, REC):
+    if case['kind'] == 'repo_tests':
+        return run_repo_tests(case, bct, REC)
     if case['kind'] == 'piggy':
         mod = importlib.import_module('bctmon.props.' + case['P'])
         before = REC.counts.get((PROP, '*', '*'))
